@@ -194,3 +194,13 @@ PROPS = {
         assumptions=BASE_ASSUME,
     ),
 }
+
+# Every monitor is also run built the way the engine is shipped (cargo profile `shipped`: no debug
+# assertions, wrapping arithmetic) at a reduced scale: the harness profile keeps debug assertions and
+# overflow checks on, and code whose behaviour depends on them must not look right only there.
+for _p in PROPS.values():
+    _l = _p.setdefault("lanes", {"quick": [], "thorough": []})
+    for _t in ("quick", "thorough"):
+        if "shipped" not in _l.setdefault(_t, []):
+            _l[_t] = list(_l[_t]) + ["shipped"]
+
